@@ -20,6 +20,13 @@ CHECKS = {
             "on the whole source vocabulary with costs", "8/C08"),
 }
 
+CHECKS["C03"] = (
+    "bounded-exhaustive exploration of optimize over a construct zoo (singles x trait configurations x declarations, "
+    "all pairs, frozen test inputs) with lasso detection on the traced fixpoint loop",
+    "every zoo statement/pair/corpus program is run through the real optimize under the tier's configuration set; the "
+    "tracer hook records every stage; oracle: returns a list, no exception/assertion, no revisited loop state (lasso), "
+    "<= 30 iterations, <= 120 s CPU", "8/C03")
+
 ALL = [f"C{i:02d}" for i in range(1, 21)]
 
 
